@@ -133,7 +133,9 @@ DhOperands(st, tok) ==
 DhStep(st, tok) ==
   LET o == DhOperands(st, tok) IN
   IF ~(o.pon /\ o.qon) THEN [cause |-> "NO_KEY_DH", ss |-> st.ss]
-  ELSE IF st.pp.validates /\ o.pub[1] # "pub" THEN [cause |-> "DH_INVALID", ss |-> st.ss]
+  \* (a validating DH function accepts genuine public keys and the inverse of one - also a point of the curve)
+  ELSE IF st.pp.validates /\ ~(o.pub[1] = "pub" \/ (o.pub[1] = "alt" /\ o.pub[3] = "negate"))
+       THEN [cause |-> "DH_INVALID", ss |-> st.ss]
   ELSE [cause |-> "none", ss |-> MixKey(st.ss, DH(o.priv, o.pub))]
 
 (* ---- the length a message has by its STRUCTURE alone --------------------- *)
